@@ -422,10 +422,13 @@ fn caller(p: &Plan) -> Obs {
             let r: Result<usize, String> = match p.helper {
                 1 => resp.text().map(|t| t.len()).map_err(|e| err_kind(&e)),
                 2 => resp.json::<serde_json::Value>().map(|_| 0).map_err(|e| err_kind(&e)),
+                #[cfg(feature = "charsets")]
                 3 => {
                     let mut t = String::new();
                     resp.text_reader().read_to_string(&mut t).map_err(|e| io_kind(&e))
                 }
+                #[cfg(not(feature = "charsets"))]
+                3 => resp.text_utf8().map(|t| t.len()).map_err(|e| err_kind(&e)),
                 _ => resp.bytes().map(|b| b.len()).map_err(|e| err_kind(&e)),
             };
             match r {
